@@ -1,0 +1,55 @@
+//go:build verif
+
+// Contracts for the protobuf message form of the stores (message level only), checked by /verif (govc). Comment-only.
+// What a message denotes: index k carries the weight of its sparse entry plus the weight of its contiguous entry
+// ("bins given both sparsely and contiguously add up").
+
+package store
+
+//@ fun PBSparse(pb *sketchpb.Store, k int) real := (pb.BinCounts != nil && in32(k) && has(pb.BinCounts, int32(k))) ? pb.BinCounts[int32(k)] : 0.0
+//@ fun PBOff(pb *sketchpb.Store) int := int(pb.ContiguousBinIndexOffset)
+//@ fun PBDense(pb *sketchpb.Store, k int) real := (PBOff(pb) <= k && k < PBOff(pb) + len(pb.ContiguousBinCounts)) ? pb.ContiguousBinCounts[k - PBOff(pb)] : 0.0
+//@ fun PBView(pb *sketchpb.Store, k int) real := PBSparse(pb, k) + PBDense(pb, k)
+// well-formed message (A-DOM for messages): weights are non-negative, contiguous indexes fit 32 bits
+//@ pred PBOK(pb *sketchpb.Store) := pb != nil && (pb.BinCounts != nil ==> (forall k int32 :: has(pb.BinCounts, k) ==> pb.BinCounts[k] >= 0.0)) && (forall j int :: 0 <= j && j < len(pb.ContiguousBinCounts) ==> pb.ContiguousBinCounts[j] >= 0.0) && PBOff(pb) + len(pb.ContiguousBinCounts) <= 2147483648
+
+// DenseStore.ToProto (also the collapsing stores, which inherit it): the message denotes exactly the content.
+//@ func DenseStore.ToProto
+//@   serves C09 C14
+//@   requires DCore(s) && (s.count > 0.0 ==> s.minIndex <= s.maxIndex)
+//@   hint ASumZeroAll(contents(s.bins), 0, len(s.bins))
+//@   ensures result != nil && fresh(result)
+//@   ensures view: forall k int :: PBView(result, k) == DView(s, k)
+
+//@ func SparseStore.ToProto
+//@   serves C09 C14
+//@   requires MInv(s)
+//@   ensures result != nil && fresh(result)
+//@   ensures view: forall k int :: PBView(result, k) == MView(s, k)
+//@   loop 1 invariant binCounts != nil && fresh(binCounts) && (forall k int32 :: has(binCounts, k) <==> $visited[int(k)]) && (forall k int :: $visited[k] ==> has(s.counts, k) && in32(k) && binCounts[int32(k)] == s.counts[k])
+
+// Interface contract: the message denotes the content of an exact store; producing it changes nothing.
+//@ func Store.ToProto
+//@   serves C09 C14
+//@   requires SInv(this)
+//@   ensures result != nil && fresh(result)
+//@   ensures view: SExact(this) ==> (forall k int :: PBView(result, k) == SView(this, k))
+
+// MergeWithProto adds what the message denotes, index-wise (sparse and contiguous entries add up).
+//@ func MergeWithProto
+//@   serves C09
+//@   requires SInv(store) && PBOK(pb) && disjoint(store, pb)
+//@   ensures SInv(store) && footprintStable(store) && SConf(store) == old(SConf(store))
+//@   ensures view: SExact(store) ==> (forall k int :: SView(store, k) == old(SView(store, k)) + PBView(pb, k))
+//@   modifies footprint(store)
+//@   loop 1 invariant (forall k int32 :: $visited[k] ==> pb.BinCounts != nil && has(pb.BinCounts, k)) && PBOK(pb) && disjoint(store, pb) && untouched(pb) && SInv(store) && footprintStable(store) && SConf(store) == old(SConf(store)) && dyntype(store) == old(dyntype(store))
+//@   loop 1 invariant SExact(store) ==> (forall k int :: SView(store, k) == old(SView(store, k)) + ((in32(k) && $visited[int32(k)]) ? pb.BinCounts[int32(k)] : 0.0))
+//@   loop 2 invariant PBOK(pb) && disjoint(store, pb) && untouched(pb) && 0 <= $i2 && $i2 <= len(pb.ContiguousBinCounts) && SInv(store) && footprintStable(store) && SConf(store) == old(SConf(store)) && dyntype(store) == old(dyntype(store))
+//@   loop 2 invariant SExact(store) ==> (forall k int :: SView(store, k) == old(SView(store, k)) + PBSparse(pb, k) + ((PBOff(pb) <= k && k < PBOff(pb) + $i2) ? pb.ContiguousBinCounts[k - PBOff(pb)] : 0.0))
+
+// FromProto (dense): a new store whose content is what the message denotes.
+//@ func FromProto
+//@   serves C09
+//@   requires PBOK(pb) && (arr(pb.ContiguousBinCounts) == 0 || allocated(arr(pb.ContiguousBinCounts))) && (pb.BinCounts == nil || allocated(pb.BinCounts))
+//@   ensures result != nil && fresh(result) && DInv(result)
+//@   ensures view: forall k int :: DView(result, k) == PBView(pb, k)
